@@ -1,4 +1,5 @@
 import Yomm2.Model.Types
+import Yomm2.Generated.Constants
 /-!
 # `fast_perfect_hash::hash_initialize` and `checked_perfect_hash`   (policies/fast_perfect_hash.hpp)
 
@@ -47,7 +48,9 @@ structure HashSt where
 deriving Repr, DecidableEq
 
 /-- number of halvings: `for (size = N*5/4; size >>= 1;) ++M` starting from `M = 1` -/
-def initialM (n : Nat) : Nat := max 1 (Nat.log2 (n * 5 / 4) + (if n * 5 / 4 = 0 then 0 else 1))
+def initialM (n : Nat) : Nat :=
+  let size := n * Generated.hashGrowNum / Generated.hashGrowDen      -- `N * 5 / 4` in the pinned source
+  max 1 (Nat.log2 size + (if size = 0 then 0 else 1))
 
 inductive SearchResult
   | found (st : HashSt) (buckets : Array UInt64) (attempts : Nat) (rest : List UInt64)
@@ -72,7 +75,7 @@ def passLoop (classes : List (List UInt64)) (M : Nat) : Nat → List UInt64 → 
         | none => none
         | some (f, b, mn', mx', mult', att, rest', flt) => some (f, b, mn', mx', mult', att + 1, rest', flt)
 
-/-- the four passes -/
+/-- the passes (four in the pinned source: `Generated.hashPasses`) -/
 def searchPasses (classes : List (List UInt64)) (budget : Nat) :
     Nat → Nat → List UInt64 → HashSt → Nat → SearchResult
   | 0, M, mults, st, total => .failed { st with length := 0 } total (2 ^ M) mults
@@ -87,7 +90,7 @@ def searchPasses (classes : List (List UInt64)) (budget : Nat) :
 
 def hashSearch (classes : List (List UInt64)) (budget : Nat) (mults : List UInt64) (st : HashSt) :
     SearchResult :=
-  searchPasses classes budget 4 (initialM classes.length) mults st 0
+  searchPasses classes budget Generated.hashPasses (initialM classes.length) mults st 0
 
 /-- `control.resize(hash_length)` after the buckets were handed back -/
 def resizeControl (buckets : Array UInt64) (len : Nat) : Array UInt64 :=
